@@ -246,14 +246,15 @@ impl ServiceDiscoveryExecutor {
     ) -> Result<(), SimpleMdnsError> {
         let packet = Packet::parse(buf)?;
         if packet.has_flags(simple_dns::PacketFlag::RESPONSE) {
-            add_response_to_resources(
+            // the bounded channel is awaited only after the write lock is released
+            let reports = collect_response(
                 packet,
                 &self.service_name,
                 &self.instance_name,
                 &mut *self.resource_manager.write().await,
-                on_discovery,
-            )
-            .await;
+                on_discovery.is_some(),
+            );
+            send_reports(reports, on_discovery).await;
         } else {
             match crate::build_reply(packet, &*self.resource_manager.read().await) {
                 Some((reply_packet, unicast_response)) => {
@@ -362,19 +363,34 @@ async fn add_response_to_resources(
     owned_resources: &mut ResourceRecordManager<'static>,
     on_discovery: &mut Option<tokio::sync::mpsc::Sender<InstanceInformation>>,
 ) {
-    let resources = packet
+    let reports = collect_response(
+        packet,
+        service_name,
+        full_name,
+        owned_resources,
+        on_discovery.is_some(),
+    );
+    send_reports(reports, on_discovery).await
+}
+
+/// Caches the records of a response and returns the reports for the on_discovery channel
+fn collect_response(
+    packet: Packet<'_>,
+    service_name: &Name<'_>,
+    full_name: &Name<'_>,
+    owned_resources: &mut ResourceRecordManager<'static>,
+    report: bool,
+) -> Vec<InstanceInformation> {
+    let resources: Vec<_> = packet
         .answers
         .into_iter()
         .chain(packet.additional_records)
         .filter(|aw| aw.name.ne(full_name) && aw.name.is_subdomain_of(service_name))
-        .map(|r| r.into_owned());
+        .map(|r| r.into_owned())
+        .collect();
 
-    if let Some(channel) = on_discovery {
-        let resources: Vec<_> = resources.collect();
-        if resources.is_empty() {
-            return;
-        }
-
+    let mut reports = Vec::new();
+    if report {
         // one report per instance: a response may carry the records of several instances
         let mut owners: Vec<&Name> = Vec::new();
         for resource in &resources {
@@ -383,28 +399,31 @@ async fn add_response_to_resources(
             }
         }
 
-        let mut closed = false;
         for owner in owners {
-            if let Some(instance_information) = InstanceInformation::from_records(
+            reports.extend(InstanceInformation::from_records(
                 service_name,
                 resources.iter().filter(|r| &r.name == owner),
-            ) {
-                if channel.send(instance_information).await.is_err() {
-                    closed = true;
-                    break;
-                }
-            }
+            ));
         }
-        if closed {
-            *on_discovery = None
-        }
+    }
 
-        for resource in resources {
-            owned_resources.add_cached_resource(resource);
-        }
-    } else {
-        for resource in resources {
-            owned_resources.add_cached_resource(resource);
+    for resource in resources {
+        owned_resources.add_cached_resource(resource);
+    }
+
+    reports
+}
+
+async fn send_reports(
+    reports: Vec<InstanceInformation>,
+    on_discovery: &mut Option<tokio::sync::mpsc::Sender<InstanceInformation>>,
+) {
+    if let Some(channel) = on_discovery {
+        for instance_information in reports {
+            if channel.send(instance_information).await.is_err() {
+                *on_discovery = None;
+                break;
+            }
         }
     }
 }
